@@ -158,7 +158,10 @@ class _Acc:
         for s in d["samples"]:
             self.sample(s)
         for k, n in d["stats"].items():
-            self.stat(k, n)
+            if isinstance(n, str):
+                self.stats.setdefault(k, n)
+            else:
+                self.stat(k, n)
         for cc, (count, size, v) in d["viol"].items():
             cur = self.viol.get(cc)
             if cur is None:
@@ -936,25 +939,45 @@ def _help_shape(helps):
     return [None if h is None else [x.strip() for x in h.split("\n")] for h in helps]
 
 
+_C18_REF_CACHE = {}   # canonical text -> (reported OK by the checker, {parser version: c18_load result}); per process, tiny
+
+
 def _c18_eval_mangled(acc, d, text, canon, meaning=True):
     """
     The contract proper, on directory d (sourced files already there).  Returns None if the precondition does not hold
-    (the file does not mean the same as the canonical one under any parser), else (problems, passes).
+    (the file does not mean the same as the canonical one under BOTH parsers), else (problems, passes).
     """
     path = os.path.join(d, "Kconfig")
     if meaning:
-        _write(path, canon)
-        res, exc, logtext = _validate(path, False)
-        if os.path.exists(path + ".new"):
-            os.remove(path + ".new")
-        if res is not True:
+        # what the checker and the parsers make of the canonical file does not depend on the directory: computed once per
+        # canonical text and worker (run_c18 puts all manglings of one canonical file into the same chunk)
+        cached = _C18_REF_CACHE.get(canon)
+        if cached is None:
+            _write(path, canon)
+            res, exc, logtext = _validate(path, False)
+            if os.path.exists(path + ".new"):
+                os.remove(path + ".new")
+            cached = (res is True, {v: c18_load(d, v) for v in (1, 2)} if res is True else None)
+            if len(_C18_REF_CACHE) >= 4:
+                _C18_REF_CACHE.clear()
+            _C18_REF_CACHE[canon] = cached
+        if not cached[0]:
             return None      # the canonical file itself is (wrongly) flagged: reported by the compliant-file contract
-        ref = {v: c18_load(d, v) for v in (1, 2)}
+        ref = cached[1]
         _write(path, text)
         before = {v: c18_load(d, v) for v in (1, 2)}
         in_scope = [v for v in (1, 2) if ref[v][0] != "error" and before[v][0] != "error"
                     and before[v][0] == ref[v][0] and before[v][2] == ref[v][2] and _help_shape(before[v][1]) == _help_shape(ref[v][1])]
-        if not in_scope:
+        readers = [v for v in (1, 2) if ref[v][0] != "error"]     # parsers that can load the canonical file at all
+        if not in_scope or len(in_scope) < len(readers):
+            # Precondition of the second sentence of the property: "a file whose ONLY defects are indentation width, tabs
+            # or trailing whitespace", whose fixed point "BOTH parsers read as the same configuration as the original".
+            # A mangled file that a parser which reads the canonical file rejects, or reads as another configuration
+            # (e.g. alternating tab / blank indentation that puts a help text to the left of its "\t\t\thelp" keyword once
+            # tabs are expanded to 8 columns: parser 2 stops with "Help block must be indented more than the help
+            # keyword") has a defect beyond whitespace style and no single "original configuration": out of scope.
+            if in_scope:
+                acc.stat("c18:mangled_out_of_scope:read_like_canonical_by_parser_%d_only" % in_scope[0])
             return None
     else:
         _write(path, text)
@@ -1438,7 +1461,15 @@ def run_c18(tier, seed, jobs):
     work.sort(key=lambda w: 0 if w[0] == "cli" else 1)
     heavy = [w for w in work if w[0] in ("cli", "rename")]
     light = [w for w in work if w[0] not in ("cli", "rename")]
-    chunks = [[h] for h in heavy] + _chunks(light, max(1, jobs) * 4)
+    # all manglings of one canonical file stay together in one chunk (the canonical file is then read only once there)
+    units = []
+    for w in light:
+        key = (w[1], w[2]) if w[0] == "mangled" else None
+        if key is not None and units and units[-1][0] == key:
+            units[-1][1].append(w)
+        else:
+            units.append((key, [w]))
+    chunks = [[h] for h in heavy] + [[w for _, ws in c for w in ws] for c in _chunks(units, max(1, jobs) * 4)]
     acc = _Acc()
     for d in _pool_map(_c18_worker, chunks, jobs):
         acc.merge(d)
@@ -1451,7 +1482,7 @@ def run_c18(tier, seed, jobs):
              "var path) after a config, after help, first in block, inside and after a menu, after a comment) x wrappers %s; compliant clause: "
              "%d files (all single fragments x 6 wrappers, all ordered pairs x {top}%s); mangled clause: %d files = fragments/pairs x wrappers "
              "x %d whitespace manglings (level width 1,2,3,5,6,8; tab per level; tab per 8 columns; mixed; shift by 2; trailing blanks / tabs; tab "
-             "between tokens; random per-line indentation; compositions), only those that both parsers still read like the canonical file; "
+             "between tokens; random per-line indentation; compositions), only those that every parser which loads the canonical file (1 and 2) still reads like the canonical file; "
              "%d sdkconfig.rename files x 3 manglings; 4 CLI invocations with up to %d files; pass bound %d"
              % (len(C18_FRAG_TAGS), list(C18_WRAPPERS), n_c, ", all ordered pairs x the other wrappers and 3000 random triples" if tier == "thorough" else "",
                 n_m, len(C18_MANGLERS), len(c18_rename_files()), len(C18_FRAG_TAGS), C18_PASS_BOUND))
@@ -1466,6 +1497,1846 @@ def run_c18(tier, seed, jobs):
         "the same two contracts for sdkconfig.rename files (meaning = old->new map and inversions loaded by Kconfig.load_rename_files under both parsers)",
         "python -m kconfcheck [--replace] f1..fn: exit status 0 / `OK` per compliant file / bytes unchanged / no .new; on mangled files exit 0 within "
         "%d runs, then identity, bytes equal to the in-process validate_file loop" % C18_PASS_BOUND,
+    ]
+    return acc, bound, rule, contracts
+
+
+# ======================================================================================================================
+# C19 -- kconfcheck --check deprecated: the verdict of a defaults file depends only on the file's own scope
+# ======================================================================================================================
+#
+# Scope objects
+#   layout   dict  relative path -> text   (everything below one temp root; "idf" is $IDF_PATH)
+#   variant  how the global scope is configured for one invocation: IDF_PATH, explicitly passed rename files, --includes
+#   history  the ordered list of defaults files handed to ONE invocation (fresh caches), i.e. what kconfcheck.core.main
+#            does:  _prepare_deprecated_options(includes, (), files)  then  check_deprecated_options(f, ...) for f in files
+#
+# Probe files: in every "probe directory" there is one defaults file per old name of the layout
+# (sdkconfig.defaults.<name> / sdkconfig.ci.<name>, each assigning exactly that one option), so that the verdict bit of a
+# file says which (directory, old name) pair the checker considers in scope; plus multi-line files.
+#
+# Oracle (written from the statement + docs/en/kconfcheck/index.rst "sdkconfig.rename file scope", un-memoised, computed
+# on the layout dict, never on the checker's data structures):
+#   project(d)   = nearest ancestor-or-self directory of d whose CMakeLists.txt has a project( call; the IDF root itself is
+#                  the global scope, not a user project
+#   GLOBAL       = old names of  $IDF_PATH/sdkconfig.rename, every sdkconfig.rename below $IDF_PATH/components, every rename
+#                  file passed explicitly, every sdkconfig.rename below an --includes directory
+#   LOCAL(P)     = old names of every sdkconfig.rename r with project(dir(r)) == P
+#   flagged(f)  <=>  assigned(f) & (GLOBAL | LOCAL(project(dir(f)))) != {}          (LOCAL(None) = {})
+
+_C19_PROJECT_CALL = re.compile(r"[ \t]*project[ \t]*\(")
+
+
+def _c19_is_project(layout, d):
+    text = layout.get((d + "/" if d else "") + "CMakeLists.txt")
+    if text is None:
+        return False
+    return any(_C19_PROJECT_CALL.match(line) for line in text.split("\n"))
+
+
+def _c19_parent(d):
+    return d.rsplit("/", 1)[0] if "/" in d else ("" if d else None)
+
+
+def c19_project(layout, d, idf):
+    """Nearest enclosing user project of directory d ('' = temp root), or None.  No memoisation on purpose."""
+    cur = d
+    while cur is not None:
+        if _c19_is_project(layout, cur):
+            return None if cur == idf else cur
+        cur = _c19_parent(cur)
+    return None
+
+
+def _c19_lhs(text, sep):
+    out = set()
+    for line in text.split("\n"):
+        line = line.strip()
+        if line and not line.startswith("#"):
+            out.add(line.split(sep)[0] if sep else line.split()[0])
+    return out
+
+
+def _c19_under(path, d):
+    return d == "" or path == d or path.startswith(d + "/")
+
+
+def c19_rename_files(layout):
+    return sorted(p for p in layout if p.rsplit("/", 1)[-1] == "sdkconfig.rename")
+
+
+def c19_scopes(layout, variant):
+    """(GLOBAL: name -> sorted list of reasons, LOCAL: project -> {name: [rename file]})"""
+    idf = variant["idf"]
+    glob = {}
+
+    def g(path, why):
+        for n in _c19_lhs(layout[path], None):
+            glob.setdefault(n, []).append(why)
+
+    root_rename = (idf + "/" if idf else "") + "sdkconfig.rename"
+    if root_rename in layout:
+        g(root_rename, "idf-root")
+    comp = (idf + "/" if idf else "") + "components"
+    for p in c19_rename_files(layout):
+        if _c19_under(p, comp) and p != comp:
+            g(p, "components")
+    for p in variant.get("explicit", ()):
+        g(p, "explicit")
+    for inc in variant.get("includes", ()):
+        for p in c19_rename_files(layout):
+            if _c19_under(p, inc):
+                g(p, "included")
+    local = {}
+    for p in c19_rename_files(layout):
+        proj = c19_project(layout, _c19_parent(p), idf)
+        if proj is not None:
+            for n in _c19_lhs(layout[p], None):
+                local.setdefault(proj, {}).setdefault(n, []).append(p)
+    return glob, local
+
+
+def c19_expected(layout, variant, f, scopes=None):
+    """(flagged?, {name: reason}) for defaults file f (relative path)."""
+    glob, local = scopes or c19_scopes(layout, variant)
+    proj = c19_project(layout, _c19_parent(f), variant["idf"])
+    hits = {}
+    for n in sorted(_c19_lhs(layout[f], "=")):
+        if n in glob:
+            hits[n] = "global:" + "+".join(sorted(set(glob[n])))
+        elif proj is not None and n in local.get(proj, {}):
+            where = sorted(set("root" if _c19_parent(r) == proj else "subdir" for r in local[proj][n]))
+            hits[n] = "own-project:" + "+".join(where)
+    return bool(hits), hits
+
+
+def c19_relation(layout, variant, f, name):
+    """How the rename files that list `name` as an old name relate to defaults file f (for class ids; sorted, '+'-joined)."""
+    idf = variant["idf"]
+    fproj = c19_project(layout, _c19_parent(f), idf)
+    rel = set()
+    for p in sorted(layout):
+        base = p.rsplit("/", 1)[-1]
+        if not base.startswith("sdkconfig.rename") or name not in _c19_lhs(layout[p], None):
+            continue
+        if base != "sdkconfig.rename":
+            rel.add("target-specific-rename-file")
+            continue
+        rproj = c19_project(layout, _c19_parent(p), idf)
+        if rproj is None:
+            rel.add("orphan-rename-file")
+        elif fproj is None:
+            rel.add("project-of-no-concern-to-orphan-file")
+        elif rproj == fproj:
+            rel.add("own-project")
+        elif _c19_under(rproj, fproj):
+            rel.add("nested-project")
+        elif _c19_under(fproj, rproj):
+            rel.add("enclosing-project")
+        else:
+            rel.add("sibling-project")
+    return "+".join(sorted(rel)) or "not-an-old-name-anywhere"
+
+
+def _c19_rel_atoms(layout, variant, f, names):
+    atoms = set()
+    for n in names:
+        atoms.update(c19_relation(layout, variant, f, n).split("+"))
+    atoms.discard("not-an-old-name-anywhere")
+    return "+".join(sorted(atoms)) or "not-an-old-name-anywhere"
+
+
+# ---- layouts ----------------------------------------------------------------------------------------------------------
+
+_C19_PROJ = "cmake_minimum_required(VERSION 3.22)\nproject(%s)\n"
+_C19_COMP = "idf_component_register(SRCS \"x.c\")\n"
+
+
+def _c19_add_probes(layout, probe_dirs, names):
+    """One single-assignment defaults file per (probe dir, old name) + a clean one + two multi-line ones."""
+    probes = []
+    for i, d in enumerate(probe_dirs):
+        for j, n in enumerate(names):
+            short = n[len("CONFIG_"):].lower()
+            base = ("sdkconfig.defaults.%s" if (i + j) % 2 == 0 else "sdkconfig.ci.%s") % short
+            p = d + "/" + base
+            layout[p] = "%s=%s\n" % (n, ("y", "n", "42", '"s"')[(i + j) % 4])
+            probes.append(p)
+        p = d + "/sdkconfig.defaults"
+        layout[p] = "# nothing deprecated here\nCONFIG_SOMETHING_CURRENT=y\n\n# %s=y\n" % names[i % len(names)]
+        probes.append(p)
+        p = d + "/sdkconfig.ci.multi"
+        layout[p] = ("# three assignments, old names of three different rename files\nCONFIG_SOMETHING_CURRENT=y\n%s=y\n\n  %s=n\n%s=1\n"
+                     % (names[i % len(names)], names[(i + 3) % len(names)], names[(i + 7) % len(names)]))
+        probes.append(p)
+    return probes
+
+
+def c19_hand_layout(idf_is_project=True, idf_in_super_project=False):
+    """The hand-written layout: (layout, probe files, names)."""
+    L = {}
+    if idf_is_project:
+        L["idf/CMakeLists.txt"] = "cmake_minimum_required(VERSION 3.22)\ninclude(tools/cmake/x.cmake)\nproject(esp-idf C CXX ASM)\n"
+    if idf_in_super_project:
+        L["CMakeLists.txt"] = _C19_PROJ % "super"
+        L["sdkconfig.rename"] = "CONFIG_SUPER_OLD CONFIG_SUPER_NEW\n"
+    L["idf/sdkconfig.rename"] = "# framework wide\nCONFIG_ROOT_OLD CONFIG_ROOT_NEW\n\nCONFIG_ROOTINV_OLD !CONFIG_ROOTINV_NEW\n"
+    L["idf/sdkconfig.rename.esp32"] = "CONFIG_ROOTTGT_OLD CONFIG_ROOTTGT_NEW\n"
+    L["idf/components/c1/CMakeLists.txt"] = _C19_COMP
+    L["idf/components/c1/sdkconfig.rename"] = "CONFIG_COMP_OLD CONFIG_COMP_NEW\n"
+    L["idf/components/c1/sub/deep/sdkconfig.rename"] = "CONFIG_COMPDEEP_OLD    CONFIG_COMPDEEP_NEW   # aligned\n"
+    L["idf/components/c1/test_apps/CMakeLists.txt"] = _C19_PROJ % "c1_test"
+    L["idf/components/c1/test_apps/sdkconfig.rename"] = "CONFIG_CTEST_OLD CONFIG_CTEST_NEW\n"
+    L["idf/examples/pa/CMakeLists.txt"] = _C19_PROJ % "pa"
+    L["idf/examples/pa/sdkconfig.rename"] = "CONFIG_PA_OLD CONFIG_PA_NEW\nCONFIG_SHARED_OLD CONFIG_SHARED_NEW\n"
+    L["idf/examples/pa/sdkconfig.rename.esp32"] = "CONFIG_PATGT_OLD CONFIG_PATGT_NEW\n"
+    L["idf/examples/pa/main/CMakeLists.txt"] = _C19_COMP
+    L["idf/examples/pa/main/sdkconfig.rename"] = "\n# in a sub directory of the project\nCONFIG_PAMAIN_OLD !CONFIG_PAMAIN_NEW\n"
+    L["idf/examples/pb/CMakeLists.txt"] = "cmake_minimum_required(VERSION 3.22)\n  project (pb)\n"
+    L["idf/examples/pb/main/sdkconfig.rename"] = "CONFIG_PB_OLD CONFIG_PB_NEW\n"
+    L["idf/examples/outer/CMakeLists.txt"] = _C19_PROJ % "outer"
+    L["idf/examples/outer/sdkconfig.rename"] = "CONFIG_OUTER_OLD CONFIG_OUTER_NEW\n"
+    L["idf/examples/outer/host_test/CMakeLists.txt"] = _C19_PROJ % "inner"
+    L["idf/examples/outer/host_test/sdkconfig.rename"] = "CONFIG_INNER_OLD CONFIG_INNER_NEW\nCONFIG_SHARED_OLD CONFIG_SHARED_NEW2\n"
+    L["idf/examples/outer/host_test/main/CMakeLists.txt"] = _C19_COMP
+    L["idf/examples/outer/host_test/main/sdkconfig.rename"] = "CONFIG_INNERMAIN_OLD CONFIG_INNERMAIN_NEW\n"
+    L["idf/examples/outer/host_test/main/deep/CMakeLists.txt"] = _C19_PROJ % "innermost"
+    L["idf/examples/outer/host_test/main/deep/sdkconfig.rename"] = "CONFIG_INNERMOST_OLD CONFIG_INNERMOST_NEW\n"
+    L["idf/examples/outer/zlast/sdkconfig.rename"] = "CONFIG_OUTERSUB_OLD CONFIG_OUTERSUB_NEW\n"
+    L["idf/examples/common/CMakeLists.txt"] = "# project(commented_out)\n" + _C19_COMP
+    L["idf/examples/common/shared/sdkconfig.rename"] = "CONFIG_ORPHAN_OLD CONFIG_ORPHAN_NEW\n"
+    L["ext/proj/CMakeLists.txt"] = _C19_PROJ % "ext"
+    L["ext/proj/sdkconfig.rename"] = "CONFIG_EXT_OLD CONFIG_EXT_NEW\n"
+    L["ext/loose/sdkconfig.rename"] = "CONFIG_LOOSE_OLD CONFIG_LOOSE_NEW\n"
+    L["ext/loose/sdkconfig.rename.esp32"] = "CONFIG_LOOSETGT_OLD CONFIG_LOOSETGT_NEW\n"
+    names = sorted(set(n for p in L if p.rsplit("/", 1)[-1].startswith("sdkconfig.rename") for n in _c19_lhs(L[p], None)))
+    probe_dirs = ["idf", "idf/tools/orphan", "idf/components/c1", "idf/components/c1/test_apps", "idf/examples/pa", "idf/examples/pa/main",
+                  "idf/examples/pb", "idf/examples/outer", "idf/examples/outer/host_test", "idf/examples/outer/host_test/main",
+                  "idf/examples/outer/host_test/main/deep", "idf/examples/outer/zlast", "idf/examples/common/shared", "ext/proj",
+                  "ext/loose"]
+    probes = _c19_add_probes(L, probe_dirs, names)
+    return L, probes, names
+
+
+def c19_random_layout(rng):
+    """A generated layout: nested projects / component dirs / plain dirs up to depth 4 below idf/examples, idf/tools, idf/components, ext."""
+    L = {}
+    counter = [0]
+    probe_dirs = []
+
+    def rename_in(d):
+        counter[0] += 1
+        n = "CONFIG_R%d_OLD" % counter[0]
+        body = "%s %sCONFIG_R%d_NEW\n" % (n, "!" if rng.random() < 0.2 else "", counter[0])
+        if rng.random() < 0.25 and counter[0] > 1:
+            body += "CONFIG_R%d_OLD CONFIG_ALSO%d_NEW\n" % (rng.randrange(1, counter[0]), counter[0])   # an old name listed in two scopes
+        L[d + "/sdkconfig.rename"] = body
+
+    def gen_dir(d, depth, p_project):
+        role = rng.random()
+        if role < p_project:
+            L[d + "/CMakeLists.txt"] = _C19_PROJ % d.rsplit("/", 1)[-1]
+        elif role < p_project + 0.25:
+            L[d + "/CMakeLists.txt"] = _C19_COMP
+        if rng.random() < 0.6:
+            rename_in(d)
+        if rng.random() < 0.7:
+            probe_dirs.append(d)
+        for i in range(rng.randrange(0, 3) if depth < 4 else 0):
+            gen_dir("%s/%s%d" % (d, rng.choice(("main", "host_test", "sub", "app")), i), depth + 1, p_project)
+
+    if rng.random() < 0.7:
+        L["idf/CMakeLists.txt"] = _C19_PROJ % "esp-idf"
+    if rng.random() < 0.7:
+        rename_in("idf")
+    probe_dirs.append("idf")
+    for i in range(rng.randrange(1, 3)):
+        gen_dir("idf/components/c%d" % i, 2, 0.2)
+    for i in range(rng.randrange(2, 4)):
+        gen_dir("idf/examples/e%d" % i, 2, 0.6)
+    gen_dir("idf/tools/t0", 2, 0.3)
+    for i in range(rng.randrange(1, 3)):
+        gen_dir("ext/x%d" % i, 1, 0.5)
+    names = sorted(set(n for p in L if p.endswith("sdkconfig.rename") for n in _c19_lhs(L[p], None)))
+    if not names:
+        rename_in("idf/examples/e0")
+        names = sorted(_c19_lhs(L["idf/examples/e0/sdkconfig.rename"], None))
+    probe_dirs = sorted(set(probe_dirs))[:10]
+    probes = _c19_add_probes(L, probe_dirs, names)
+    return L, probes, names
+
+
+def c19_variants(layout, kind):
+    """Configurations of the global scope for one layout."""
+    vs = [{"tag": "plain", "idf": "idf", "explicit": (), "includes": ()}]
+    if kind == "hand":
+        vs.append({"tag": "explicit-rename", "idf": "idf", "explicit": ("ext/loose/sdkconfig.rename",), "includes": ()})
+        vs.append({"tag": "explicit-target-rename+project-rename", "idf": "idf",
+                   "explicit": ("ext/loose/sdkconfig.rename.esp32", "idf/examples/pb/main/sdkconfig.rename"), "includes": ()})
+        vs.append({"tag": "includes-loose", "idf": "idf", "explicit": (), "includes": ("ext/loose",)})
+        vs.append({"tag": "includes-project", "idf": "idf", "explicit": (), "includes": ("idf/examples/outer/host_test", "ext/proj")})
+    else:
+        rens = c19_rename_files(layout)
+        ext = [p for p in rens if p.startswith("ext/")]
+        if ext:
+            vs.append({"tag": "explicit-rename", "idf": "idf", "explicit": (ext[0],), "includes": ()})
+            vs.append({"tag": "includes", "idf": "idf", "explicit": (), "includes": (_c19_parent(ext[-1]),)})
+    return vs
+
+
+# ---- running one invocation -------------------------------------------------------------------------------------------
+
+def c19_materialize(layout):
+    root = os.path.realpath(tempfile.mkdtemp(prefix="rtc19_"))
+    for p, t in layout.items():
+        _write(os.path.join(root, p), t)
+    # the temp root must not sit inside a project itself
+    cur = os.path.dirname(root)
+    while True:
+        cm = os.path.join(cur, "CMakeLists.txt")
+        if os.path.isfile(cm) and re.search(r"^\s*project\s*\(", open(cm, errors="ignore").read(), re.M):
+            raise RuntimeError("temp dir %s lies inside a CMake project (%s); cannot state the scope" % (root, cur))
+        nxt = os.path.dirname(cur)
+        if nxt == cur:
+            break
+        cur = nxt
+    return root
+
+
+def c19_invoke(root, variant, history, explicit_at=0):
+    """
+    What kconfcheck.core.main does for --check deprecated, on the real functions, with fresh caches.
+    history: relative paths of defaults files; explicit rename files are inserted at index explicit_at.
+    Returns list of (relative path, verdict) in checking order, or raises.
+    """
+    from kconfcheck.check_deprecated_options import _prepare_deprecated_options, check_deprecated_options
+    files = [os.path.join(root, f) for f in history]
+    ex = [os.path.join(root, f) for f in variant.get("explicit", ())]
+    files[explicit_at:explicit_at] = ex
+    includes = tuple(os.path.join(root, d) for d in variant.get("includes", ()))
+    old = os.environ.get("IDF_PATH")
+    os.environ["IDF_PATH"] = os.path.join(root, variant["idf"]) if variant["idf"] else root
+    try:
+        files2, glob, local, ign, cache, idfabs = _prepare_deprecated_options(includes, (), files)
+        out = []
+        for p in files2:
+            r = check_deprecated_options(p, glob, local, ign, cache, idfabs)
+            out.append((os.path.relpath(p, root).replace(os.sep, "/"), r))
+        return out
+    finally:
+        if old is None:
+            os.environ.pop("IDF_PATH", None)
+        else:
+            os.environ["IDF_PATH"] = old
+
+
+C19_SCRIPT = SCRIPT_HEAD + '''
+from kconfcheck.check_deprecated_options import _prepare_deprecated_options, check_deprecated_options
+LAYOUT = %(layout)r      # relative path -> text; "%(idf)s" is $IDF_PATH
+HISTORY = %(history)r    # files handed to ONE invocation, in this order
+EXPLICIT = %(explicit)r  # rename files passed explicitly (global scope), inserted in front
+INCLUDES = %(includes)r  # --includes directories
+FILE = %(file)r          # the file whose verdict is wrong
+EXPECTED_OK = %(expected)r   # what the property prescribes for FILE: %(why)s
+root = os.path.realpath(tempfile.mkdtemp(prefix="c19rep"))
+bad = []
+try:
+    for p, t in LAYOUT.items():
+        os.makedirs(os.path.dirname(os.path.join(root, p)), exist_ok=True)
+        open(os.path.join(root, p), "w", newline="\\n").write(t)
+    os.environ["IDF_PATH"] = os.path.join(root, %(idf)r)
+    def invoke(history):
+        files = [os.path.join(root, f) for f in EXPLICIT] + [os.path.join(root, f) for f in history]
+        files, g, l, ign, cache, idf = _prepare_deprecated_options(tuple(os.path.join(root, d) for d in INCLUDES), (), files)
+        return [(os.path.relpath(p, root), check_deprecated_options(p, g, l, ign, cache, idf)) for p in files]
+    got = invoke(HISTORY)
+    alone = invoke([FILE])
+    for p, ok in got:
+        if p == FILE and ok is not EXPECTED_OK:
+            bad.append("%%s reported %%s after %%r but the property prescribes %%s (checked alone: %%s)"
+                       %% (p, "OK" if ok else "DEPRECATED", HISTORY[:HISTORY.index(FILE)] if FILE in HISTORY else HISTORY,
+                          "OK" if EXPECTED_OK else "DEPRECATED", ["OK" if o else "DEPRECATED" for q, o in alone if q == FILE]))
+finally:
+    shutil.rmtree(root, ignore_errors=True)
+for b in bad: print("VIOLATION:", b)
+sys.exit(1 if bad else 0)
+'''
+
+
+def _c19_prune(layout, keep_files):
+    """The layout without the probe files that are not needed (rename files and CMakeLists stay)."""
+    out = {}
+    for p, t in layout.items():
+        base = p.rsplit("/", 1)[-1]
+        if base.startswith(("sdkconfig.defaults", "sdkconfig.ci")) and p not in keep_files:
+            continue
+        out[p] = t
+    return out
+
+
+def c19_judge(acc, layout, variant, scopes, root, history, results, lid, alone_cache):
+    """Compare every verdict of one invocation with the oracle; returns list of violation tuples."""
+    out = []
+    seen_projects = set()
+    for idx, (f, verdict) in enumerate(results):
+        acc.ev()
+        if f not in layout:
+            continue
+        want_flag, hits = c19_expected(layout, variant, f, scopes)
+        proj = c19_project(layout, _c19_parent(f), variant["idf"])
+        if idx > 0 and (seen_projects - {proj}):
+            acc.nt("c19:%s:%s:%s:after-other-scope" % (lid, variant["tag"], f))
+        elif idx == 0:
+            acc.nt("c19:%s:%s:%s:first" % (lid, variant["tag"], f))
+        seen_projects.add(proj)
+        if verdict is (not want_flag):
+            continue
+        # ---- a wrong verdict: classify; shrink the history once per (direction, relation) of this work unit
+        prior = [g for g, _ in results[:idx] if g in layout]
+        key = (variant["tag"], f)
+        if key not in alone_cache:
+            r1 = c19_invoke(root, variant, [f])
+            alone_cache[key] = [v for g, v in r1 if g == f][0]
+        alone = alone_cache[key]
+        assigned = sorted(_c19_lhs(layout[f], "="))
+        if want_flag:
+            direction = "missed"
+            rel = "+".join(sorted(set(hits.values())))
+        else:
+            direction = "flagged-by"
+            rel = _c19_rel_atoms(layout, variant, f, assigned)
+        if verdict is None or alone is None:
+            kind = "ignored"
+        elif alone is (not want_flag):
+            kind = "order-dependent"
+        else:
+            kind = "wrong-verdict"
+            prior = []
+        ckey = ("class", variant["tag"], kind, direction, rel)
+        if ckey in alone_cache and (len(prior) + 1) * 1000 >= alone_cache[ckey][1]:
+            acc.violation(alone_cache[ckey][0], "", alone_cache[ckey][2], "", 10 ** 9)     # counted; the recorded witness is smaller
+            continue
+        if kind == "order-dependent":
+            # shortest prefix: first a single earlier file (one per directory), else greedy removal
+            pref = None
+            seen_dirs = set()
+            for g in prior:
+                if _c19_parent(g) in seen_dirs:
+                    continue
+                seen_dirs.add(_c19_parent(g))
+                r2 = c19_invoke(root, variant, [g, f])
+                if [v for q, v in r2[1:] if q == f][:1] == [verdict]:
+                    pref = [g]
+                    break
+            if pref is None:
+                pref = list(prior)
+                i = 0
+                while i < len(pref) and len(pref) <= 60:
+                    trial = pref[:i] + pref[i + 1:]
+                    r2 = c19_invoke(root, variant, trial + [f])
+                    v2 = [v for g, v in r2[len(trial):] if g == f]
+                    if v2 and v2[0] is verdict:
+                        pref = trial
+                    else:
+                        i += 1
+            prior = pref
+        if kind == "order-dependent":
+            prev_proj = sorted(set(_c19_prev_relation(layout, variant, f, g) for g in prior))
+            cc = "c19:order-dependent:%s:%s:after[%s]" % (direction, rel, "+".join(prev_proj))
+        else:
+            cc = "c19:%s:%s:%s:%s" % (kind, direction, rel, variant["tag"] if variant["tag"] != "plain" else "any-history")
+        hist = prior + [f]
+        script = C19_SCRIPT % {"layout": _c19_prune(layout, set(hist)), "history": hist, "explicit": list(variant.get("explicit", ())),
+                               "includes": list(variant.get("includes", ())), "file": f, "expected": not want_flag,
+                               "why": ("assigns %s" % hits) if want_flag else ("assigns %s, none of which is an old name in the global scope or in the file's own project %r"
+                                                                            % (assigned, proj)), "idf": variant["idf"]}
+        detail = ("layout %s, global scope %s: %s reported %s, the property prescribes %s (%s); checked alone it is %s; shortest history showing it: %r"
+                  % (lid, variant["tag"], f, "OK" if verdict else "DEPRECATED", "DEPRECATED" if want_flag else "OK",
+                     ("own scope has %s" % hits) if want_flag else ("old name only in: " + rel), "OK" if alone else "DEPRECATED", hist))
+        contract = ("check_deprecated_options(f) after any history of the same invocation == (assigned(f) & (GLOBAL | LOCAL(nearest project of f)) == {})"
+                    if kind != "order-dependent" else
+                    "check_deprecated_options(f) in an invocation that checked other files before == its verdict when checked alone")
+        out.append((cc, contract, detail, script, len(hist) * 1000 + len(f)))
+        alone_cache[ckey] = (cc, len(hist) * 1000, detail)
+    return out
+
+
+def _c19_prev_relation(layout, variant, f, g):
+    """Relation of the project of an earlier checked file g to the project of f."""
+    idf = variant["idf"]
+    pf, pg = c19_project(layout, _c19_parent(f), idf), c19_project(layout, _c19_parent(g), idf)
+    if pg is None:
+        return "file-outside-any-project"
+    if pf is None:
+        return "file-of-some-project"
+    if pf == pg:
+        return "file-of-same-project"
+    if _c19_under(pg, pf):
+        return "file-of-nested-project"
+    if _c19_under(pf, pg):
+        return "file-of-enclosing-project"
+    return "file-of-sibling-project"
+
+
+# ---- CLI --------------------------------------------------------------------------------------------------------------
+
+C19_CLI_SCRIPT = SCRIPT_HEAD + '''
+import subprocess
+LAYOUT = %(layout)r
+ARGS = %(args)r          # arguments after `--check deprecated` (relative to the temp root)
+CWD = %(cwd)r
+IDF_PATH = %(idf_env)r   # None = unset (the tool falls back to the current directory)
+EXPECT = %(expect)r      # file -> True (OK) / False (flagged) as prescribed by the property
+root = os.path.realpath(tempfile.mkdtemp(prefix="c19cli"))
+bad = []
+try:
+    for p, t in LAYOUT.items():
+        os.makedirs(os.path.dirname(os.path.join(root, p)), exist_ok=True)
+        open(os.path.join(root, p), "w", newline="\\n").write(t)
+    env = dict(os.environ, PYTHONPATH=REPO, NO_COLOR="1", COLUMNS="10000")
+    env.pop("IDF_PATH", None)
+    if IDF_PATH is not None: env["IDF_PATH"] = os.path.join(root, IDF_PATH)
+    p = subprocess.run([sys.executable, "-m", "kconfcheck", "--check", "deprecated"] + [a if a.startswith("-") else os.path.join(root, a) for a in ARGS],
+                       cwd=os.path.join(root, CWD), env=env, stdout=subprocess.PIPE, stderr=subprocess.STDOUT)
+    out = p.stdout.decode().replace("\\n", " ")
+    for f, ok in EXPECT.items():
+        full = os.path.join(root, f)
+        got_ok, got_bad = (full + ": OK") in out, (full + ": The following options are deprecated") in out
+        if got_ok == got_bad: bad.append("no unique verdict line for %%s" %% f)
+        elif got_ok != ok: bad.append("%%s reported %%s, prescribed %%s" %% (f, "OK" if got_ok else "DEPRECATED", "OK" if ok else "DEPRECATED"))
+    want = 0 if all(EXPECT.values()) else 1
+    if p.returncode != want: bad.append("exit status %%d, expected %%d" %% (p.returncode, want))
+finally:
+    shutil.rmtree(root, ignore_errors=True)
+for b in bad: print("VIOLATION:", b)
+sys.exit(1 if bad else 0)
+'''
+
+
+def c19_cli_case(acc, layout, probes, spec):
+    """spec: dict(tag, idf_env, cwd, args(list of relative paths / options), variant)"""
+    out = []
+    root = c19_materialize(layout)
+    try:
+        variant = spec["variant"]
+        scopes = c19_scopes(layout, variant)
+        args = list(spec["args"])
+        env = {"NO_COLOR": "1", "COLUMNS": "10000"}
+        full_args = ["--check", "deprecated"] + [a if a.startswith("-") else os.path.join(root, a) for a in args]
+        envx = dict(os.environ)
+        envx["PYTHONPATH"] = REPO + (os.pathsep + envx["PYTHONPATH"] if envx.get("PYTHONPATH") else "")
+        envx.pop("IDF_PATH", None)
+        envx.update(env)
+        if spec["idf_env"] is not None:
+            envx["IDF_PATH"] = os.path.join(root, spec["idf_env"])
+        p = subprocess.run([PY, "-m", "kconfcheck"] + full_args, cwd=os.path.join(root, spec["cwd"]), env=envx, stdout=subprocess.PIPE,
+                           stderr=subprocess.STDOUT, timeout=120)
+        txt = re.sub(r"\x1b\[[0-9;]*m", "", p.stdout.decode("utf-8", "replace")).replace("\n", " ")
+        checked = [a for a in args if not a.startswith("-") and a in layout and not a.rsplit("/", 1)[-1].startswith("sdkconfig.rename")
+                   and a not in variant.get("includes", ())]
+        for inc in variant.get("includes", ()):
+            checked += [q for q in sorted(layout) if _c19_under(q, inc) and q.rsplit("/", 1)[-1].startswith(("sdkconfig.ci", "sdkconfig.defaults"))]
+        expect = {}
+        probs = []
+        for f in checked:
+            acc.ev()
+            want_flag, hits = c19_expected(layout, variant, f, scopes)
+            expect[f] = not want_flag
+            full = os.path.join(root, f)
+            got_ok = (full + ": OK") in txt
+            got_bad = (full + ": The following options are deprecated") in txt
+            if got_ok == got_bad:
+                probs.append(("no-verdict-line", "no unique verdict line for %s" % f))
+            elif got_ok is want_flag:
+                direction = "missed" if want_flag else "flagged-by"
+                rel = "+".join(sorted(set(hits.values()))) if want_flag else _c19_rel_atoms(layout, variant, f, _c19_lhs(layout[f], "="))
+                probs.append(("%s:%s" % (direction, rel), "%s reported %s, prescribed %s" % (f, "OK" if got_ok else "DEPRECATED", "DEPRECATED" if want_flag else "OK")))
+        want_rc = 0 if all(expect.values()) else 1
+        acc.ev()
+        if p.returncode != want_rc:
+            probs.append(("exit-status", "exit status %d, expected %d; output tail: %s" % (p.returncode, want_rc, txt[-300:])))
+        if probs:
+            script = C19_CLI_SCRIPT % {"layout": _c19_prune(layout, set(checked)), "args": args, "cwd": spec["cwd"], "idf_env": spec["idf_env"], "expect": expect}
+            seen = set()
+            for sym, detail in probs:
+                if sym in seen:
+                    continue
+                seen.add(sym)
+                out.append(("c19:cli:%s" % sym, "python -m kconfcheck --check deprecated <files>: one verdict line per file as prescribed by the "
+                            "scope rule, exit status 1 iff some file is flagged", "CLI case %s (%d files): %s" % (spec["tag"], len(checked), detail), script, len(checked)))
+        else:
+            acc.nt("c19cli:" + spec["tag"])
+    finally:
+        shutil.rmtree(root, ignore_errors=True)
+    return out
+
+
+# ---- scope / runner ---------------------------------------------------------------------------------------------------
+
+def _c19_layout(lid, seed):
+    if lid == "hand":
+        return c19_hand_layout()
+    if lid == "hand-idf-not-a-project":
+        return c19_hand_layout(idf_is_project=False)
+    if lid == "hand-idf-inside-a-project":
+        return c19_hand_layout(idf_is_project=False, idf_in_super_project=True)
+    k = int(lid.split("-")[1])
+    return c19_random_layout(random.Random(7919 * seed + 104729 * k + 19))
+
+
+def c19_histories(lid, probes, layout, variant, tier, rng):
+    """List of histories (lists of probe files) for one (layout, variant)."""
+    H = []
+    by_dir = {}
+    for p in probes:
+        by_dir.setdefault(_c19_parent(p), []).append(p)
+    dirs = sorted(by_dir)
+    H.extend([p] for p in probes)                                    # every file alone
+    hand = lid.startswith("hand")
+    # ordered pairs: a representative of every directory first, then every file
+    reps = [by_dir[d][0] for d in dirs]
+    if variant["tag"] == "plain":
+        for r in reps:
+            rest = [p for p in probes if p != r]
+            if lid != "hand" and not (hand and tier != "quick"):
+                H.append([r] + rest)             # one long history per leading directory
+            else:
+                H.extend([r, p] for p in rest)   # all ordered pairs (rep, file)
+        # ordered triples of directories, the third one with all its files
+        if hand:
+            trip = [(a, b, c) for a in dirs for b in dirs for c in dirs if len({a, b, c}) == 3]
+            rng.shuffle(trip)
+            for a, b, c in trip[: ((250 if lid == "hand" else 60) if tier == "quick" else 2500)]:
+                H.append([by_dir[a][rng.randrange(len(by_dir[a]))], by_dir[b][rng.randrange(len(by_dir[b]))]] + by_dir[c])
+    else:
+        for r in reps:
+            H.append([r] + [p for p in probes if p != r])
+    # full set: sorted, reversed, random orders; random subsets in random order
+    H.append(sorted(probes))
+    H.append(sorted(probes, reverse=True))
+    for _ in range(4 if tier == "quick" else 40):
+        h = list(probes)
+        rng.shuffle(h)
+        H.append(h)
+    for _ in range(30 if tier == "quick" else 400):
+        k = rng.randrange(2, min(len(probes), 25) + 1)
+        H.append(rng.sample(probes, k))
+    return H
+
+
+def _c19_worker(chunk):
+    _quiet()
+    acc = _Acc()
+    mat = {}
+    try:
+        for w in chunk:
+            try:
+                if w[0] == "cli":
+                    _, lid, seed, spec = w
+                    layout, probes, names = _c19_layout(lid, seed)
+                    for v in c19_cli_case(acc, layout, probes, spec):
+                        acc.violation(*v)
+                    continue
+                _, lid, seed, vidx, hseed, part, nparts = w
+                layout, probes, names = _c19_layout(lid, seed)
+                variant = c19_variants(layout, "hand" if lid.startswith("hand") else "random")[vidx]
+                if lid not in mat:
+                    mat[lid] = c19_materialize(layout)
+                root = mat[lid]
+                scopes = c19_scopes(layout, variant)
+                H = c19_histories(lid, probes, layout, variant, _C19_TIER[0], random.Random(hseed))
+                alone_cache = {}
+                for hi, h in enumerate(H):
+                    if hi % nparts != part:
+                        continue
+                    at = (0, len(h) // 2, len(h))[hi % 3] if variant.get("explicit") else 0
+                    results = c19_invoke(root, variant, h, explicit_at=at)
+                    passed = set(h)
+                    missing = passed - set(f for f, _ in results)
+                    if missing:
+                        acc.violation("c19:file-not-checked:%s" % variant["tag"], "every defaults file passed to the invocation gets a verdict",
+                                      "files %r were passed but never checked" % sorted(missing)[:3], "", 1)
+                    for v in c19_judge(acc, layout, variant, scopes, root, h, results, lid, alone_cache):
+                        acc.violation(*v)
+                    if len(acc.samples) < 1 and len(h) > 2:
+                        acc.sample({"layout": lid, "global_scope": variant["tag"], "history_length": len(h), "first_files": h[:3]})
+                acc.stat("c19:histories:%s" % ("hand" if lid.startswith("hand") else "random"), len([1 for hi in range(len(H)) if hi % nparts == part]))
+            except Exception:  # noqa: BLE001
+                acc.stat("checker_error")
+                acc.stats.setdefault("checker_error_text", traceback.format_exc()[-1500:])
+    finally:
+        for r in mat.values():
+            shutil.rmtree(r, ignore_errors=True)
+    return acc.dump()
+
+
+_C19_TIER = ["quick"]
+
+
+def c19_cli_specs(layout, probes):
+    plain = {"tag": "plain", "idf": "idf", "explicit": (), "includes": ()}
+    some = [p for p in probes if p.endswith((".pa_old", ".inner_old", ".outer_old", ".comp_old", ".orphan_old", ".loose_old", "sdkconfig.defaults", ".multi"))]
+    specs = [
+        {"tag": "all-files-sorted", "idf_env": "idf", "cwd": "", "args": sorted(some), "variant": plain},
+        {"tag": "all-files-reversed", "idf_env": "idf", "cwd": "", "args": sorted(some, reverse=True), "variant": plain},
+        {"tag": "idf-path-unset-cwd-is-idf", "idf_env": None, "cwd": "idf", "args": sorted(some)[::2], "variant": plain},
+        {"tag": "explicit-rename-last", "idf_env": "idf", "cwd": "", "args": sorted(some)[1::2] + ["ext/loose/sdkconfig.rename"],
+         "variant": {"tag": "explicit-rename", "idf": "idf", "explicit": ("ext/loose/sdkconfig.rename",), "includes": ()}},
+        {"tag": "includes", "idf_env": "idf", "cwd": "", "args": sorted(some)[::3] + ["--includes", "ext/loose", "idf/examples/outer/host_test"],
+         "variant": {"tag": "includes", "idf": "idf", "explicit": (), "includes": ("ext/loose", "idf/examples/outer/host_test")}},
+        {"tag": "only-ok-files", "idf_env": "idf", "cwd": "", "args": [p for p in sorted(some) if p.endswith("sdkconfig.defaults")], "variant": plain},
+    ]
+    return specs
+
+
+def run_c19(tier, seed, jobs):
+    _C19_TIER[0] = tier
+    n_random = 10 if tier == "quick" else 60
+    lids = ["hand", "hand-idf-not-a-project", "hand-idf-inside-a-project"] + ["rnd-%d" % k for k in range(n_random)]
+    work = []
+    n_hist = 0
+    for lid in lids:
+        layout, probes, names = _c19_layout(lid, seed)
+        variants = c19_variants(layout, "hand" if lid.startswith("hand") else "random")
+        if lid != "hand":
+            variants = variants[:1] if lid.startswith("hand") else variants
+        for vidx, v in enumerate(variants):
+            nparts = 8 if (lid == "hand" and v["tag"] == "plain") else (2 if lid.startswith("hand") else 1)
+            for part in range(nparts):
+                work.append(("hist", lid, seed, vidx, 1000003 * seed + 31 * vidx + 19, part, nparts))
+    layout, probes, names = _c19_layout("hand", seed)
+    for spec in c19_cli_specs(layout, probes):
+        work.append(("cli", "hand", seed, spec))
+    work.sort(key=lambda w: 0 if w[0] == "cli" else 1)
+    acc = _Acc()
+    for d in _pool_map(_c19_worker, [[w] for w in work], jobs):
+        acc.merge(d)
+    hl, hp, hn = c19_hand_layout()
+    bound = ("directory layouts below one temp root with $IDF_PATH=<root>/idf: 3 hand-written layouts (IDF root with / without project(); IDF root inside "
+             "an enclosing project; components with nested rename files and a test app project; sibling projects with rename files in the project root and "
+             "in main/; a project nested in a project nested in a project, with rename files in root and sub directories; sub directory of the outer "
+             "project after the nested one; orphan directories; a CMakeLists.txt with a commented-out project( call; `  project (x)`; projects outside "
+             "$IDF_PATH; target-specific sdkconfig.rename.esp32 files; an old name listed by two projects; %d old names x %d probe directories = %d "
+             "single-assignment defaults files + clean and multi-line files) and %d generated layouts (random nesting up to depth 4, seed-dependent); global "
+             "scope configurations: plain, rename file(s) passed explicitly (first / middle / last), --includes directories (incl. a nested project); "
+             "histories per layout: every file alone; one file of every directory followed by all other files (as all ordered pairs "
+             "(one file per directory, any file) on the main hand layout, as one long history elsewhere); %s ordered triples of directories (third one with "
+             "all its files); the full set sorted / reversed / random orders; random subsets in random order; explicit rename files first / in the middle / last; 6 CLI invocations (IDF_PATH set / unset, explicit rename, --includes)"
+             % (len(hn), len(set(_c19_parent(p) for p in hp)), len(hp), n_random, 250 if tier == "quick" else 2500))
+    rule = ("hand layouts and the pair enumeration are fixed; the seed selects the generated layouts and the random orders / subsets / triples")
+    contracts = [
+        "kconfcheck.check_deprecated_options.check_deprecated_options(f, ...) (state prepared by _prepare_deprecated_options, shared over the whole "
+        "invocation as in kconfcheck.core.main): returns False exactly when f assigns an old name of a rename file of the global scope (IDF root file, "
+        "components/**, explicitly passed, below --includes) or of a rename file whose nearest enclosing project is f's nearest enclosing project "
+        "(oracle: un-memoised spec function over the generated layout)",
+        "the verdict for f at any position of any history equals the verdict for f checked alone (order / subset independence)",
+        "every defaults file passed gets a verdict",
+        "python -m kconfcheck --check deprecated <files> [--includes ...]: verdict line per file as above, exit status 1 iff some file is flagged",
+    ]
+    return acc, bound, rule, contracts
+
+
+# ======================================================================================================================
+# C20 -- gen_kconfig_doc: only unreachable options are omitted, shown conditions are truth-preserving, no dangling :ref:
+# ======================================================================================================================
+#
+# Ground truth = brute force with the real evaluator: for one (tree, target, parser) every assignment of user values to the
+# prompted options / choices the checked conditions can depend on is applied to one Kconfig instance (unset_values() +
+# Symbol.set_value()), and Symbol.visibility / expr_value() are read.  The set of configurations "the user can reach" is
+# the image of these assignments (that is what loading an sdkconfig does).
+#
+# Contracts (all on the tree named by $PYVC_REPO):
+#   R  kconfgen.core.write_docs -> RST text: every option (symbol, choice member, named choice) with a prompt for which some
+#      reachable configuration has visibility > 0 has its anchor `.. _CONFIG_<name>:` in the text (and
+#      ConfigTargetVisibility.visible() is True for one of its prompted nodes / its choice)
+#   C  every condition that is SHOWN: gen_kconfig_doc._prepare_cond(cond, ...) as called by write_menu_item for
+#      "Symbol can be set when" (prompt condition), the shown Range / Default value rows (direct dependency stripped: compared
+#      in the configurations in which the direct dependency holds, as the text says "already covered by can-be-set-when")
+#      and the "forcefully enabled by / set by" rows, has in every reachable configuration the truth value of the original;
+#      the rendered "Symbol can be set when" TEXT, parsed back (":ref:`CONFIG_X`" -> X, "X is enabled/disabled" -> X / !X)
+#      and evaluated with Kconfig.eval_string, as well
+#   L  every :ref:`X` / :ref:`t<X>` of the text (incl. the deprecated-options section) has `.. _X:` in the same text
+#      (labels compared the way Sphinx normalises them: case-insensitive, white space collapsed)
+
+C20_TARGETS = ("chipa", "chipb", "chipc")
+
+C20_PRE = '''mainmenu "T"
+
+config IDF_TARGET
+    string
+    default "$IDF_TARGET"
+
+config IDF_TARGET_CHIPA
+    bool
+    default "y" if IDF_TARGET="chipa"
+
+config IDF_TARGET_CHIPB
+    bool
+    default "y" if IDF_TARGET="chipb"
+
+'''
+
+# operand tag -> (text used in expressions, type, definition text, requires (tags), candidate user values {symbol: [..]})
+C20_OPERANDS = {
+    # ---- bool
+    "UA": ("UA", "bool", 'config UA\n    bool "ua"\n', (), {}),
+    "UB": ("UB", "bool", 'config UB\n    bool "ub"\n    default y\n', (), {}),
+    "TA": ("IDF_TARGET_CHIPA", "bool", "", (), {}),
+    "TB": ("IDF_TARGET_CHIPB", "bool", "", (), {}),
+    "P1": ("P1", "bool", "config P1\n    bool\n    default y\n", (), {}),
+    "P0": ("P0", "bool", "config P0\n    bool\n", (), {}),
+    "PT": ("PT", "bool", "config PT\n    bool\n    default y if IDF_TARGET_CHIPA\n", (), {}),
+    "PU": ("PU", "bool", "config PU\n    bool\n    default y if UA\n", ("UA",), {}),
+    "SU": ("SU", "bool", 'config SU\n    bool\n\nconfig SU_SRC\n    bool "su src"\n    select SU\n', (), {}),
+    "ST": ("ST", "bool", "config ST\n    bool\n\nconfig ST_SRC\n    bool\n    default y if IDF_TARGET_CHIPA\n    select ST\n", (), {}),
+    "IU": ("IU", "bool", 'config IU\n    bool\n\nconfig IU_SRC\n    bool "iu src"\n    imply IU\n', (), {}),
+    "IP": ("IP", "bool", 'config IP\n    bool "ip" if IDF_TARGET_CHIPB\n\nconfig IP_SRC\n    bool "ip src"\n    imply IP\n', (), {}),
+    "GT": ("GT", "bool", 'config GT\n    bool "gt"\n    depends on IDF_TARGET_CHIPA\n', (), {}),
+    "GP": ("GP", "bool", 'config GP\n    bool "gp" if IDF_TARGET_CHIPA\n    default y\n', (), {}),
+    "M1": ("M1", "bool", 'choice CH\n    prompt "ch"\n    default M2\n\n    config M1\n        bool "m1"\n\n    config M2\n        bool "m2"\nendchoice\n', (), {}),
+    "MT": ("MT1", "bool", 'choice CHT\n    prompt "cht"\n    depends on IDF_TARGET_CHIPA\n\n    config MT1\n        bool "mt1"\n\n    config MT2\n        bool "mt2"\nendchoice\n', (), {}),
+    "UND": ("NOSUCH", "bool", "", (), {}),
+    # ---- int
+    "NI": ("NI", "int", 'config NI\n    int "ni"\n    default 3\n', (), {"NI": ["5", "7"]}),
+    "NP": ("NP", "int", "config NP\n    int\n    default 3\n", (), {}),
+    "NT": ("NT", "int", "config NT\n    int\n    default 5 if IDF_TARGET_CHIPA\n    default 3\n", (), {}),
+    "NS": ("NS", "int", 'config NS\n    int\n    default 3\n\nconfig NS_SRC\n    bool "ns src"\n    set NS=5\n', (), {}),
+    "ND": ("ND", "int", 'config ND\n    int\n    default 3\n\nconfig ND_SRC\n    bool "nd src"\n    set default ND=5\n', (), {}),
+    # ---- string
+    "SI": ("IDF_TARGET", "string", "", (), {}),
+    "SM": ("SM", "string", 'config SM\n    string "sm"\n    default "slow"\n', (), {"SM": ["fast", "chipa", "n"]}),
+    "SP": ("SP", "string", 'config SP\n    string\n    default "fast"\n', (), {}),
+}
+C20_BOOL_OPS = ("UA", "UB", "TA", "TB", "P1", "P0", "PT", "PU", "SU", "ST", "IU", "IP", "GT", "GP", "M1", "MT", "UND")
+C20_INT_OPS = ("NI", "NP", "NT", "NS", "ND")
+C20_STR_OPS = ("SI", "SM", "SP")
+
+
+def c20_expressions(tier, seed):
+    """Deterministic list of (expression text, operand tags)."""
+    def t(tag):
+        return C20_OPERANDS[tag][0]
+    out = []
+    for a in C20_BOOL_OPS:
+        for form in ("%s", "!%s", "%s = y", "%s != y", "%s = n", "%s != n"):
+            out.append((form % t(a), (a,)))
+    for a in C20_BOOL_OPS:
+        for b in ("UA", "TA", "P1", "UND", "IU"):
+            if a == b:
+                continue
+            for form in ("%s && %s", "%s || %s", "%s = %s", "%s != %s"):
+                out.append((form % (t(a), t(b)), (a, b)))
+    for a in C20_INT_OPS:
+        for form in ("%s = 5", "%s != 5", "%s < 5", "%s >= 5", "%s = 3", "5 != %s"):
+            out.append((form % t(a), (a,)))
+        for b in ("NI", "NP"):
+            if a == b:
+                continue
+            for form in ("%s = %s", "%s != %s", "%s < %s"):
+                out.append((form % (t(a), t(b)), (a, b)))
+    for a in C20_STR_OPS:
+        for lit in ('"chipa"', '"fast"', "fast"):      # the last one is an (unquoted) undefined symbol: it evaluates to its name
+            for form in ("%s = %s", "%s != %s"):
+                out.append((form % (t(a), lit), (a,)))
+    for a, b in (("SM", "SP"), ("SI", "SM"), ("SI", "SP")):
+        for form in ("%s = %s", "%s != %s"):
+            out.append((form % (t(a), t(b)), (a, b)))
+    # seed-dependent compound expressions of depth 2
+    rng = random.Random(1000003 * seed + 20)
+    atoms = [e for e in out if len(e[1]) <= 2]
+    for _ in range(60 if tier == "quick" else 1500):
+        (e1, t1), (e2, t2) = rng.choice(atoms), rng.choice(atoms)
+        form = rng.choice(("(%s) && (%s)", "(%s) || (%s)", "!(%s) && (%s)", "(%s) || !(%s)", "!((%s) && (%s))"))
+        out.append((form % (e1, e2), tuple(t1) + tuple(t2)))
+    return out
+
+
+def c20_expr_tree(expr, tags):
+    """One tree that uses `expr` in every position the docs generator folds; returns dict(text, rename, candidates, sinks)."""
+    need = []
+
+    def add(tag):
+        for r in C20_OPERANDS[tag][3]:
+            add(r)
+        if tag not in need:
+            need.append(tag)
+    for tg in tags:
+        add(tg)
+    order = [k for k in C20_OPERANDS if k in need]
+    defs = "".join(C20_OPERANDS[k][2] + "\n" for k in order if C20_OPERANDS[k][2])
+    cands = {}
+    for k in order:
+        cands.update(C20_OPERANDS[k][4])
+    body = '''config X_DEP
+    bool "x dep"
+    depends on %(e)s
+
+config X_PIF
+    bool "x prompt if" if %(e)s
+
+if %(e)s
+
+config X_IF
+    bool "x in if"
+
+endif
+
+menu "Menu dep"
+    depends on %(e)s
+
+    config X_MD
+        bool "x in menu dep"
+
+endmenu
+
+menu "Menu vis"
+    visible if %(e)s
+
+    config X_MV
+        bool "x in menu vis"
+
+endmenu
+
+choice X_CH
+    prompt "x choice"
+    depends on %(e)s
+
+    config X_CH_A
+        bool "a"
+
+    config X_CH_B
+        bool "b"
+
+endchoice
+
+config X_INT
+    int "x int"
+    range 0 10 if %(e)s
+    range 0 100
+    default 7 if %(e)s
+    default 1
+
+config X_TGT
+    bool "x tgt"
+
+config X_SRC
+    bool "x src"
+    select X_TGT if %(e)s
+
+menuconfig X_MC
+    bool "x menuconfig"
+    depends on %(e)s
+
+config X_MC_SUB
+    bool "x sub"
+    depends on X_MC
+''' % {"e": expr}
+    return {"text": C20_PRE + defs + body, "rename": "", "candidates": cands,
+            "sinks": ("X_DEP", "X_PIF", "X_IF", "X_MD", "X_MV", "X_CH", "X_INT", "X_TGT", "X_SRC", "X_MC", "X_MC_SUB")}
+
+
+def c20_hand_trees():
+    """Hand-written trees for structural shapes: name -> dict(text, rename, candidates, sinks)."""
+    H = {}
+    H["multi-def-hidden-menu-first"] = {"text": C20_PRE + '''menu "Chip B peripherals"
+    visible if IDF_TARGET_CHIPB
+
+    config CHIPB_ONLY
+        bool "only on chip b"
+
+    config SHARED_DMA
+        bool "use dma"
+endmenu
+
+menu "Common peripherals"
+
+    config COMMON_OPT
+        bool "common"
+
+    config SHARED_DMA
+        bool "use dma"
+
+    config DMA_BURST
+        int "burst"
+        depends on SHARED_DMA
+        default 16
+endmenu
+
+menu "Chip A only"
+    depends on IDF_TARGET_CHIPA
+
+    config TWICE
+        bool "twice"
+endmenu
+
+config TWICE
+    bool "twice (second definition, top level)"
+    depends on COMMON_OPT
+
+config AFTER_TWICE
+    bool "after twice"
+    depends on TWICE
+''', "rename": "", "candidates": {"DMA_BURST": ["4"]}, "sinks": ("DMA_BURST", "AFTER_TWICE", "CHIPB_ONLY")}
+    H["promptless-choice-members-referenced"] = {"text": C20_PRE + '''choice FLASH_MODE
+    prompt "flash mode"
+    default FLASH_MODE_QIO
+
+    config FLASH_MODE_QIO
+        bool "qio"
+
+    config FLASH_MODE_DIO
+        bool "dio"
+endchoice
+
+choice FLASH_VENDOR
+    default FLASH_VENDOR_FAST
+
+    config FLASH_VENDOR_FAST
+        bool "fast vendor"
+
+    config FLASH_VENDOR_SLOW
+        bool "slow vendor"
+endchoice
+
+menu "Hidden on chip b"
+    depends on !IDF_TARGET_CHIPB
+
+    choice HID_CH
+        prompt "hidden choice"
+
+        config HID_CH_A
+            bool "a"
+
+        config HID_CH_B
+            bool "b"
+    endchoice
+
+    config HID_OPT
+        bool "hidden opt"
+endmenu
+
+config USES_MEMBERS
+    int "uses members"
+    range 1 4 if FLASH_VENDOR_FAST
+    range 1 8 if FLASH_MODE_DIO
+    range 1 16
+    default 2 if FLASH_VENDOR_SLOW
+    default 3 if HID_CH_B
+    default 4 if HID_OPT
+    default 1
+
+config DEP_ON_MEMBERS
+    bool "dep on members"
+    depends on FLASH_VENDOR_FAST || FLASH_MODE_DIO || HID_CH_A
+    select SEL_TARGET if FLASH_VENDOR_FAST
+
+config SEL_TARGET
+    bool "sel target"
+''', "rename": "CONFIG_OLD_VENDOR CONFIG_FLASH_VENDOR\nCONFIG_OLD_VENDOR_FAST CONFIG_FLASH_VENDOR_FAST\nCONFIG_OLD_MODE CONFIG_FLASH_MODE\nCONFIG_OLD_HID_CH CONFIG_HID_CH\n",
+        "candidates": {"USES_MEMBERS": ["2"]}, "sinks": ("USES_MEMBERS", "SEL_TARGET")}
+    H["excluded-menu-with-children"] = {"text": C20_PRE + '''menu "Component config"
+
+    config NORMAL_OPT
+        bool "normal"
+endmenu
+
+menu "Configuration for components not included in the build"
+
+    config IN_EXCLUDED
+        bool "option of a component that is not in the build"
+
+    menu "Sub menu of excluded"
+
+        config DEEP_IN_EXCLUDED
+            int "deep"
+            default 1 if IN_EXCLUDED
+            default 0
+    endmenu
+endmenu
+
+config USES_EXCLUDED
+    bool "uses"
+    depends on IN_EXCLUDED
+''', "rename": "", "candidates": {"DEEP_IN_EXCLUDED": ["2"]}, "sinks": ("DEEP_IN_EXCLUDED", "USES_EXCLUDED", "NORMAL_OPT")}
+    H["menus-menuconfig-rename"] = {"text": C20_PRE + '''menu "Top menu"
+
+    config TOP_A
+        bool "top a"
+
+    menu "Inner menu"
+        visible if TOP_A
+
+        config INNER_B
+            bool "inner b"
+
+        menu "Target menu"
+            depends on IDF_TARGET_CHIPA
+
+            config DEEP_C
+                int "deep c"
+                default 1
+        endmenu
+    endmenu
+
+    menuconfig MC
+        bool "a menuconfig"
+
+    config MC_SUB
+        bool "mc sub"
+        depends on MC
+
+    config IMPLICIT_PARENT
+        bool "implicit parent"
+
+    config IMPLICIT_CHILD
+        bool "implicit child"
+        depends on IMPLICIT_PARENT
+
+    config PROMPT_GATED_PARENT
+        bool "gated parent" if IDF_TARGET_CHIPB
+        default y
+
+    config CHILD_OF_GATED
+        bool "child of gated"
+        depends on PROMPT_GATED_PARENT
+endmenu
+
+choice NAMED_CH
+    prompt "named choice"
+
+    config NAMED_CH_X
+        bool "x"
+
+    config NAMED_CH_Y
+        bool "y"
+endchoice
+
+config NOPROMPT
+    bool
+    default y
+
+config FORCED
+    bool "forced"
+
+config FORCER_HIDDEN
+    bool "forcer hidden"
+    depends on IDF_TARGET_CHIPB
+    select FORCED
+
+config FORCER_VISIBLE
+    bool "forcer visible"
+    select FORCED if TOP_A && !IDF_TARGET_CHIPA
+''', "rename": ("CONFIG_OLD_TOP_A CONFIG_TOP_A\nCONFIG_OLD_DEEP_C CONFIG_DEEP_C\nCONFIG_OLD_MEMBER CONFIG_NAMED_CH_X\nCONFIG_OLD_CHOICE CONFIG_NAMED_CH\n"
+                 "CONFIG_OLD_NOPROMPT CONFIG_NOPROMPT\nCONFIG_OLD_MC !CONFIG_MC\nCONFIG_OLD_HIDDEN CONFIG_FORCER_HIDDEN\n"),
+        "candidates": {"DEEP_C": ["2"]}, "sinks": ("DEEP_C", "MC_SUB", "IMPLICIT_CHILD", "CHILD_OF_GATED", "INNER_B")}
+    H["two-definitions-top-level"] = {"text": C20_PRE + '''config EXT
+    bool "ext (chip a definition)"
+    depends on IDF_TARGET_CHIPA
+
+config EXT
+    bool "ext (chip b definition)"
+    depends on IDF_TARGET_CHIPB
+
+config USES_EXT
+    bool "uses ext"
+    depends on EXT
+
+config SECOND_PROMPTLESS
+    bool "first def has the prompt"
+    depends on USES_EXT
+
+config SECOND_PROMPTLESS
+    bool
+    default y if IDF_TARGET_CHIPA
+''', "rename": "", "candidates": {}, "sinks": ()}
+    H["forced-and-set-by"] = {"text": C20_PRE + '''config GATE
+    bool "gate"
+
+config NUM
+    int "num"
+    default 1
+
+config SETTER
+    bool "setter"
+    depends on GATE
+    set NUM=5 if GATE
+    set default NUM=6 if !IDF_TARGET_CHIPA
+
+config TSETTER
+    bool
+    default y if IDF_TARGET_CHIPB
+    set NUM=9
+
+config VICTIM
+    bool "victim"
+
+config SELECTOR
+    bool "selector"
+    depends on GATE || IDF_TARGET_CHIPA
+    select VICTIM if GATE || IDF_TARGET_CHIPA
+    select VICTIM2 if NUM = 5
+
+config VICTIM2
+    bool "victim 2"
+    depends on NUM < 7
+''', "rename": "", "candidates": {"NUM": ["5", "8"]}, "sinks": ("VICTIM", "VICTIM2")}
+    return H
+
+
+def c20_tree(tid, tier, seed):
+    if tid[0] == "h":
+        return c20_hand_trees()[tid[1]]
+    expr, tags = _c20_expressions_memo(tier, seed)[tid[1]]
+    return c20_expr_tree(expr, tags)
+
+
+# ---- reachable configurations ---------------------------------------------------------------------------------------------
+
+class _C20Configs:
+    """All assignments of user values to the user-settable options that are not declared pure sinks."""
+
+    LIMIT = 1024
+
+    def __init__(self, kconf, candidates, sinks):
+        self.kconf = kconf
+        self.domains = []
+        for ch in kconf.unique_choices:
+            if ch.name in sinks or not any(n.prompt for n in ch.nodes):
+                continue
+            self.domains.append((ch, [None] + list(ch.syms)))
+        for sym in kconf.unique_defined_syms:
+            if sym.choice is not None or sym.name in sinks or not any(n.prompt for n in sym.nodes):
+                continue
+            if sym.orig_type == K.BOOL:
+                three = bool(sym.defaults) or sym.weak_rev_dep is not kconf.n
+                self.domains.append((sym, ([None] if three else []) + ["n", "y"]))
+            else:
+                self.domains.append((sym, [None] + list(candidates.get(sym.name, ()))))
+        n = 1
+        for _, vals in self.domains:
+            n *= len(vals)
+        if n > self.LIMIT:
+            raise RuntimeError("too many assignments (%d) for a brute force; declare sinks" % n)
+        self.count = n
+
+    def describe(self, combo):
+        out = []
+        for (obj, _), v in zip(self.domains, combo):
+            if v is None:
+                continue
+            out.append((v.name, "y") if isinstance(obj, K.Choice) else (obj.name, v))
+        return out
+
+    def apply(self, combo):
+        for sym in self.kconf.unique_defined_syms:
+            sym.unset_value()
+        for ch in self.kconf.unique_choices:
+            ch.unset_value()
+        for (obj, _), v in zip(self.domains, combo):
+            if v is None:
+                continue
+            if isinstance(obj, K.Choice):
+                v.set_value(2)
+            else:
+                obj.set_value(v)
+
+    def reset(self):
+        """Back to the state in which the docs are generated: no user values."""
+        self.apply(())
+
+    def __iter__(self):
+        for combo in itertools.product(*[vals for _, vals in self.domains]):
+            self.apply(combo)
+            yield combo
+        self.reset()
+
+
+def _c20_truth(e):
+    return K.expr_value(e) > 0
+
+
+def _c20_load(d, tree, target, version, write=True):
+    if write:
+        _write(os.path.join(d, "Kconfig"), tree["text"])
+        if tree["rename"]:
+            _write(os.path.join(d, "sdkconfig.rename"), tree["rename"])
+    G.reset_library_report()
+    kconf = K.Kconfig(os.path.join(d, "Kconfig"), parser_version=version)
+    if tree["rename"]:
+        kconf.load_rename_files([os.path.join(d, "sdkconfig.rename")])
+    return kconf
+
+
+def _c20_norm(label):
+    return " ".join(label.lower().split())
+
+
+_C20_ANCHOR = re.compile(r"^[ \t]*\.\. _([^\n]+?):[ \t]*$", re.M)
+_C20_REF = re.compile(r":ref:`([^`]*)`")
+
+
+def _c20_ref_target(body):
+    m = re.match(r"^.*<([^<>]*)>\s*$", body, re.S)
+    return m.group(1) if m else body
+
+
+def c20_scan_refs(rst):
+    """[(target label, section kind)] for every :ref: of the text."""
+    out = []
+    section = "entry"
+    for line in rst.split("\n"):
+        s = line.strip()
+        if s.startswith(".. _configuration-deprecated-options:"):
+            section = "deprecated-list"
+        elif s.startswith(".. _"):
+            if section != "deprecated-list":
+                section = "entry"
+        elif s == "Symbol can be set when:":
+            section = "can-be-set-when"
+        elif s == "Range:":
+            section = "range"
+        elif s == "Default value:":
+            section = "default"
+        elif s == "This symbol affects the value of following symbols:":
+            section = "affects"
+        elif s == "Following symbols affect the value of this symbol:":
+            section = "forced-by"
+        elif s == "Contains:":
+            section = "contains"
+        kind = "breadcrumbs" if s.startswith(":emphasis:`Found in:`") else section
+        for m in _C20_REF.finditer(line):
+            out.append((_c20_ref_target(m.group(1)), kind))
+    return out
+
+
+def c20_target_kind(kconf, vis, label):
+    name = label[len("CONFIG_"):] if label.startswith("CONFIG_") else None
+    if name is None:
+        from esp_idf_kconfig import gen_kconfig_doc as D
+        for node in kconf.node_iter():
+            if node.item is K.MENU and node.prompt and D.get_link_anchor(node) == label:
+                return "menu-with-excluded-name" if node.prompt[0] in D.EXCLUDED_MENU_NAMES else "menu-not-documented"
+        return "unknown-label"
+    if name in kconf.named_choices:
+        ch = kconf.named_choices[name]
+        return "choice-without-prompt" if not any(n.prompt for n in ch.nodes) else "choice-not-documented"
+    sym = kconf.syms.get(name)
+    if sym is None or not sym.nodes:
+        return "no-such-option"
+    if sym.choice is not None:
+        chn = sym.choice.nodes
+        if not any(n.prompt for n in chn):
+            return "member-of-choice-without-prompt"
+        return "member-of-choice-not-documented"
+    if not any(n.prompt for n in sym.nodes):
+        return "promptless-option"
+    return "option-not-documented-for-target"
+
+
+# ---- diagnosis of a wrong fold (used only to name the class) -------------------------------------------------------------
+
+_C20_OPNAME = {K.EQUAL: "=", K.UNEQUAL: "!=", K.LESS: "<", K.LESS_EQUAL: "<=", K.GREATER: ">", K.GREATER_EQUAL: ">=", K.AND: "&&", K.OR: "||",
+               K.NOT: "!"}
+
+
+class _C20Diag:
+    def __init__(self, kconf, vis, configs, D):
+        self.kconf, self.vis, self.configs, self.D = kconf, vis, configs, D
+        self._set_targets = set()
+        for s in kconf.unique_defined_syms:
+            for tgt, _v, _c in list(s.sets) + list(getattr(s, "weak_sets", ())):
+                self._set_targets.add(tgt)
+
+    def mismatch(self, a, b):
+        """First assignment under which expressions a and b differ in truth value, or None."""
+        found = None
+        for combo in self.configs:
+            if found is None and _c20_truth(a) != _c20_truth(b):
+                found = combo
+        return found
+
+    def varies(self, sym):
+        seen = set()
+        for _ in self.configs:
+            seen.add(sym.str_value)
+        return len(seen) > 1
+
+    def kind(self, sym):
+        if type(sym) is not K.Symbol:
+            return "expr"
+        if sym.is_constant:
+            return "literal"
+        if not sym.nodes:
+            return "undefined-symbol"
+        typ = K.TYPE_TO_STR.get(sym.orig_type, "?")
+        if sym.name.startswith("IDF_TARGET"):
+            return "idf-target-" + typ
+        self.configs.reset()
+        claimed = self.vis._is_item_target_constant(sym)
+        if claimed and self.varies(sym):
+            how = []
+            if sym.weak_rev_dep is not self.kconf.n:
+                how.append("imply")
+            if sym in self._set_targets:
+                how.append("set")
+            return "%s-treated-as-target-constant-but-varies-by-%s" % (typ, "+".join(how) or "other")
+        if claimed:
+            return "target-constant-" + typ
+        if sym.choice is not None:
+            return "choice-member"
+        if any(n.prompt for n in sym.nodes):
+            return "user-" + typ
+        return "derived-" + typ
+
+    def fold(self, m):
+        if m is self.kconf.y:
+            return "y"
+        if m is self.kconf.n:
+            return "n"
+        return "rewritten"
+
+    def diagnose(self, e):
+        """Class fragment naming the innermost sub-expression whose simplification changes the truth value; None if e is fine."""
+        self.configs.reset()
+        m = self.D._minimize_expr(e, self.vis, self.kconf)
+        if type(e) is tuple:
+            op = e[0]
+            if op in (K.AND, K.OR, K.NOT):
+                # operands that were folded to a constant first: they are what decides a folded whole
+                subs = sorted(e[1:], key=lambda s_: 0 if self.fold(self.D._minimize_expr(s_, self.vis, self.kconf)) != "rewritten" else 1)
+                for sub in subs:
+                    r = self.diagnose(sub)
+                    if r:
+                        return r
+                return ("logic(%s)" % _C20_OPNAME[op]) if self.mismatch(e, m) is not None else None
+            if self.mismatch(e, m) is None:
+                return None
+            ka, kb, fold = self.kind(e[1]), self.kind(e[2]), self.fold(m)
+            hows = sorted(set(re.findall(r"varies-by-([a-z+]+)", ka + " " + kb)))
+            if hows:
+                return "constancy-ignores-" + "+".join(hows)
+            if op == K.UNEQUAL and fold == "n":
+                return "unequal-of-different-operands-folded-to-n"
+            if "undefined-symbol" in (ka, kb):
+                return "undefined-symbol-operand-of-relation-replaced-by-n"
+            return "relation[%s %s %s]->%s" % (ka, _C20_OPNAME[op], kb, fold)
+        if self.mismatch(e, m) is None:
+            return None
+        ks = self.kind(e)
+        hows = sorted(set(re.findall(r"varies-by-([a-z+]+)", ks)))
+        if hows:
+            return "constancy-ignores-" + "+".join(hows)
+        return "symbol[%s]->%s" % (ks, self.fold(m))
+
+
+# ---- replay script ----------------------------------------------------------------------------------------------------
+
+C20_SCRIPT = SCRIPT_HEAD + '''
+import re
+import esp_kconfiglib.core as K
+from esp_idf_kconfig import gen_kconfig_doc as D
+import kconfgen.core as KG
+KCONFIG = %(text)r
+RENAME = %(rename)r
+TARGET, PARSER = %(target)r, %(version)d
+MODE = %(mode)r            # "omitted" | "cond" | "cond-text" | "ref"
+SYMBOL = %(symbol)r        # option concerned
+WITNESS = %(witness)r      # user assignments (name, value) of the configuration that shows it
+WHAT = %(what)r            # cond: ("prompt", node index) | ("range"|"default", row index) | ("selected-by"|"set-by", source name, row index); ref: label
+d = tempfile.mkdtemp(prefix="c20rep")
+bad = []
+try:
+    open(os.path.join(d, "Kconfig"), "w").write(KCONFIG)
+    os.environ["IDF_TARGET"] = TARGET
+    k = K.Kconfig(os.path.join(d, "Kconfig"), parser_version=PARSER)
+    if RENAME:
+        open(os.path.join(d, "sdkconfig.rename"), "w").write(RENAME)
+        k.load_rename_files([os.path.join(d, "sdkconfig.rename")])
+    out = os.path.join(d, "out.rst")
+    KG.write_docs(k, out)
+    rst = open(out).read()
+    vis = D.ConfigTargetVisibility(k, TARGET)
+    norm = lambda s: " ".join(s.lower().split())
+    anchors = set(norm(a) for a in re.findall(r"^[ \\t]*\\.\\. _([^\\n]+?):[ \\t]*$", rst, re.M))
+    def apply():
+        for s_ in k.unique_defined_syms: s_.unset_value()
+        for c_ in k.unique_choices: c_.unset_value()
+        for name, v in WITNESS:
+            k.syms[name].set_value(v)
+    truth = lambda e: K.expr_value(e) > 0
+    if MODE == "omitted":
+        apply()
+        item = k.syms.get(SYMBOL) or k.named_choices[SYMBOL]
+        if item.visibility > 0 and norm("CONFIG_" + SYMBOL) not in anchors:
+            bad.append("with %%r the prompt of %%s is visible (the user can set it) but the docs for %%s have no entry `.. _CONFIG_%%s:`" %% (WITNESS, SYMBOL, TARGET, SYMBOL))
+    elif MODE == "ref":
+        for body in re.findall(r":ref:`([^`]*)`", rst):
+            m = re.match(r"^.*<([^<>]*)>\\s*$", body, re.S)
+            label = m.group(1) if m else body
+            if label == WHAT and norm(label) not in anchors:
+                bad.append("the text contains :ref:`%%s` but no `.. _%%s:`" %% (body, label)); break
+    else:
+        sym = k.syms[SYMBOL]
+        guard = None
+        if WHAT[0] == "prompt":
+            orig = sym.nodes[WHAT[1]].prompt[1]; shown = D._prepare_cond(orig, vis, k)
+        elif WHAT[0] in ("range", "default"):
+            rows = [c for _lo, _hi, c in sym.ranges] if WHAT[0] == "range" else [c for _v, c in sym.defaults]
+            orig = rows[WHAT[1]]; guard = sym.direct_dep; shown = D._prepare_cond(orig, vis, k, direct_deps=guard)
+        else:
+            src = k.syms[WHAT[1]]
+            rows = [c for t, c in src.selects if t is sym] if WHAT[0] == "selected-by" else [c for t, _v, c in src.sets if t is sym]
+            orig = rows[WHAT[2]]; guard = src.direct_dep; shown = D._prepare_cond(orig, vis, k, direct_deps=guard)
+        if MODE == "cond-text":
+            m = re.search(r"^\\.\\. _CONFIG_%%s:\\n.*?Symbol can be set when:\\n\\s*(.*?)\\n" %% SYMBOL, rst, re.M | re.S)
+            text = m.group(1)
+            expr = re.sub(r":ref:`CONFIG_(\\w+)(?:<CONFIG_\\w+>)?`", r"\\1", text)
+            expr = re.sub(r"\\bCONFIG_(\\w+)", r"\\1", expr)
+            expr = re.sub(r"(\\w+) is enabled", r"\\1", expr); expr = re.sub(r"(\\w+) is disabled", r"!\\1", expr)
+            apply()
+            if (k.eval_string(expr) > 0) != truth(orig):
+                bad.append("with %%r: shown text %%r is %%s, the Kconfig condition %%s is %%s" %% (WITNESS, text, k.eval_string(expr) > 0, K.expr_str(orig), truth(orig)))
+        else:
+            apply()
+            s = k.n if shown is None else shown
+            if (guard is None or truth(guard)) and truth(s) != truth(orig):
+                bad.append("with %%r: shown condition %%s is %%s, the Kconfig condition %%s is %%s" %% (WITNESS, K.expr_str(s), truth(s), K.expr_str(orig), truth(orig)))
+finally:
+    shutil.rmtree(d, ignore_errors=True)
+for b in bad: print("VIOLATION:", b)
+sys.exit(1 if bad else 0)
+'''
+
+
+def _c20_script(tree, target, version, mode, symbol, witness, what):
+    return C20_SCRIPT % {"text": tree["text"], "rename": tree["rename"], "target": target, "version": version, "mode": mode, "symbol": symbol,
+                         "witness": witness, "what": what}
+
+
+def _c20_text_cond(rst, name, k_th):
+    """The text under 'Symbol can be set when:' of the k-th entry `.. _CONFIG_<name>:` (None if that entry has no such section)."""
+    starts = [m.start() for m in re.finditer(r"^\.\. _CONFIG_%s:\n" % re.escape(name), rst, re.M)]
+    if k_th >= len(starts):
+        return None
+    nxt = re.search(r"^\.\. _", rst[starts[k_th] + 4:], re.M)
+    block = rst[starts[k_th]: starts[k_th] + 4 + nxt.start()] if nxt else rst[starts[k_th]:]
+    m = re.search(r"Symbol can be set when:\n\s*(.*?)\n", block)
+    return m.group(1) if m else None
+
+
+def _c20_text_to_expr(text):
+    expr = re.sub(r":ref:`CONFIG_(\w+)(?:<CONFIG_\w+>)?`", r"\1", text)
+    expr = re.sub(r"\bCONFIG_(\w+)", r"\1", expr)
+    expr = re.sub(r"(\w+) is enabled", r"\1", expr)
+    expr = re.sub(r"(\w+) is disabled", r"!\1", expr)
+    return expr
+
+
+# ---- one (tree, target, parser) case ---------------------------------------------------------------------------------------
+
+def c20_case(acc, tid, tree, target, version, workdir=None):
+    """Returns list of violation tuples (class, contract, detail, script, size).  workdir: scratch directory to reuse."""
+    from esp_idf_kconfig import gen_kconfig_doc as D
+    import kconfgen.core as KG
+    out = []
+    d = workdir or tempfile.mkdtemp(prefix="rtc20_")
+    where = "tree %s target=%s parser=%d" % (tid[1] if tid[0] == "h" else repr(c20_label(tid)), target, version)
+    size = len(tree["text"])
+    try:
+        with G.controlled_env({"IDF_TARGET": target}):
+            try:
+                kconf = _c20_load(d, tree, target, version)
+            except BaseException as e:  # noqa: BLE001
+                if isinstance(e, KeyboardInterrupt):
+                    raise
+                acc.stat("c20:tree-rejected-by-parser-%d" % version)
+                return out
+            rst_path = os.path.join(d, "out.rst")
+            try:
+                KG.write_docs(kconf, rst_path)
+                rst = _read(rst_path)
+            except BaseException as e:  # noqa: BLE001
+                if isinstance(e, KeyboardInterrupt):
+                    raise
+                tb = traceback.extract_tb(e.__traceback__)
+                fn = [f.name for f in tb if "gen_kconfig_doc" in f.filename or "kconfgen" in f.filename][-1:] or ["?"]
+                out.append(("c20:exception:%s:%s" % (fn[0], type(e).__name__), "kconfgen.core.write_docs does not raise on a well-formed tree",
+                            "%s: %s: %s" % (where, type(e).__name__, str(e)[:200]), _c20_script(tree, target, version, "ref", "", [], ""), size))
+                return out
+            vis = D.ConfigTargetVisibility(kconf, target)
+            configs = _C20Configs(kconf, tree["candidates"], set(tree["sinks"]))
+            diag = _C20Diag(kconf, vis, configs, D)
+            anchors = set(_c20_norm(a) for a in _C20_ANCHOR.findall(rst))
+
+            # ---- L: no dangling :ref:
+            seen = set()
+            for label, kind in c20_scan_refs(rst):
+                acc.ev()
+                if _c20_norm(label) in anchors:
+                    acc.nt("c20:ref:%s:%s" % (kind, "member" if label.startswith("CONFIG_") and kconf.syms.get(label[7:]) is not None
+                                                and kconf.syms[label[7:]].choice else "other"))
+                    continue
+                tk = c20_target_kind(kconf, vis, label)
+                cc = "c20:dangling-ref:in-%s:to-%s" % (kind, tk)
+                if cc in seen:
+                    continue
+                seen.add(cc)
+                out.append((cc, "every :ref: of the generated text points at an anchor defined in the same text",
+                            "%s: :ref: to `%s` (%s) in a %s line, but the text has no `.. _%s:`" % (where, label, tk, kind, label),
+                            _c20_script(tree, target, version, "ref", "", [], label), size))
+
+            # ---- gather what has to be evaluated in every configuration
+            items = []       # prompted options: (name, item, kind)
+            for sym in kconf.unique_defined_syms:
+                if any(n.prompt for n in sym.nodes):
+                    items.append((sym.name, sym))
+            for ch in kconf.unique_choices:
+                if ch.name and any(n.prompt for n in ch.nodes):
+                    items.append((ch.name, ch))
+            conds = []       # shown conditions: dict(kind, sym, what, orig, shown, guard)
+            selected_by, set_by = D._cache_reverse_dependency_mappings(kconf)
+            for sym in kconf.unique_defined_syms:
+                if sym.choice is not None:
+                    continue
+                doc_nodes = [n for n in sym.nodes if n.prompt and vis.visible(n)]
+                if not doc_nodes:
+                    continue
+                for k_th, node in enumerate(doc_nodes):
+                    shown = D._prepare_cond(node.prompt[1], vis, kconf)
+                    if shown is not None and shown is not kconf.y:
+                        conds.append({"kind": "can-be-set-when", "sym": sym, "what": ("prompt", sym.nodes.index(node)), "orig": node.prompt[1],
+                                      "shown": shown, "guard": None, "k_th": k_th})
+                for kind, rows in (("range", [c for _lo, _hi, c in sym.ranges]), ("default", [c for _v, c in sym.defaults])):
+                    tagged = [(i, c) for i, c in enumerate(rows)]
+                    for i, shown in D._filter_possibly_applicable_rows(tagged, vis, kconf, direct_deps=sym.direct_dep):
+                        conds.append({"kind": kind, "sym": sym, "what": (kind, i), "orig": rows[i], "shown": shown, "guard": sym.direct_dep})
+                for kind, mapping in (("selected-by", selected_by), ("set-by", set_by)):
+                    per_src = {}
+                    for row in mapping.get(sym, []):
+                        src, cond = row[0], row[-1]
+                        i = per_src.get(src, 0)
+                        per_src[src] = i + 1
+                        if not D._source_sym_may_force(src, vis):
+                            continue
+                        shown = D._prepare_cond(cond, vis, kconf, direct_deps=src.direct_dep)
+                        if shown is None:
+                            continue
+                        conds.append({"kind": kind, "sym": sym, "what": (kind, src.name, i), "orig": cond, "shown": shown, "guard": src.direct_dep})
+            text_conds = []
+            for c in conds:
+                if c["kind"] == "can-be-set-when":
+                    t = _c20_text_cond(rst, c["sym"].name, c["k_th"])
+                    if t is not None:
+                        text_conds.append((c, t, _c20_text_to_expr(t)))
+
+            # ---- the brute force
+            reach = {}          # name -> witness assignment
+            reach_combo = {}
+            bad_cond = {}       # index in conds -> witness
+            bad_text = {}
+            last_combo = here = None
+            for combo in configs:
+                last_combo, here = combo, None
+                for name, item in items:
+                    if name not in reach and item.visibility > 0:
+                        reach[name] = configs.describe(combo)
+                        reach_combo[name] = combo
+                for i, c in enumerate(conds):
+                    if i in bad_cond:
+                        continue
+                    if c["guard"] is not None and not _c20_truth(c["guard"]):
+                        continue
+                    if _c20_truth(c["shown"]) != _c20_truth(c["orig"]):
+                        bad_cond[i] = configs.describe(combo)
+                for j, (c, t, ex) in enumerate(text_conds):
+                    if j in bad_text:
+                        continue
+                    try:
+                        tv = kconf.eval_string(ex) > 0
+                    except Exception as e:  # noqa: BLE001
+                        bad_text[j] = ("unparsable", "%s: %s" % (type(e).__name__, str(e)[:100]))
+                        continue
+                    if tv != _c20_truth(c["orig"]):
+                        bad_text[j] = ("differs", configs.describe(combo))
+            acc.ev(configs.count * (len(items) + len(conds) + len(text_conds)))
+            # self-check of the harness: the last configuration, re-created on a fresh instance, has the same values
+            last = configs.describe(last_combo)
+            configs.apply(last_combo)
+            here = [(s.name, s.str_value) for s in kconf.unique_defined_syms]
+            configs.reset()
+            fresh = _c20_load(d, tree, target, version, write=False)
+            for name, v in last:
+                fresh.syms[name].set_value(v)
+            if here != [(s.name, s.str_value) for s in fresh.unique_defined_syms]:
+                raise RuntimeError("harness: re-used instance and fresh instance disagree for %r" % (last,))
+            acc.stat("c20:configurations", configs.count)
+
+            # ---- R: reachable => documented
+            for name, item in items:
+                if name not in reach:
+                    acc.nt("c20:unreachable:%s:%s:%s" % (tid, target, name)) if _c20_norm("CONFIG_" + name) not in anchors else None
+                    continue
+                documented = _c20_norm("CONFIG_" + name) in anchors
+                if isinstance(item, K.Choice):
+                    api = any(vis.visible(n) for n in item.nodes)
+                elif item.choice is not None:
+                    api = any(vis.visible(n) for n in item.choice.nodes)
+                else:
+                    api = any(vis.visible(n) for n in item.nodes if n.prompt)
+                if documented and api:
+                    acc.nt("c20:documented:%s:%s:%s" % (tid, target, name))
+                    continue
+                # why?  find the gating dependency that was folded to n, from the outside in
+                cause = None
+                nodes = item.nodes if (isinstance(item, K.Choice) or item.choice is None) else item.choice.nodes
+                configs.apply(reach_combo[name])
+                nodes = [n for n in nodes if n.prompt and _c20_truth(n.prompt[1])]      # the definitions through which it is reachable
+                configs.reset()
+                for node in nodes:
+                    chain = []
+                    n = node
+                    while n is not None and n.parent is not None:
+                        chain.append(n)
+                        n = n.parent
+                    for n in reversed(chain):
+                        if type(n.item) in (K.Symbol, K.Choice):
+                            dep = n.item.direct_dep
+                        else:
+                            dep = kconf._make_and(n.visibility, n.dep)
+                        configs.reset()
+                        if D._minimize_expr(dep, vis, kconf) is kconf.n:
+                            cause = diag.diagnose(dep) or "folded-to-n-unexplained"
+                            break
+                    if cause:
+                        break
+                if cause is None:
+                    multi = (not isinstance(item, K.Choice)) and len(item.nodes) > 1
+                    cause = "no-dependency-folds-to-n:%s" % ("option-defined-at-several-places" if multi else "single-definition")
+                cc = "c20:omitted:%s" % cause
+                out.append((cc, "an option with a prompt that some assignment of user values makes visible is documented for the target",
+                            "%s: with %r the prompt of %s is visible, but %s; cause: %s"
+                            % (where, reach[name], name, "the text has no `.. _CONFIG_%s:`" % name if not documented else
+                               "ConfigTargetVisibility.visible() is False for all its prompted nodes", cause),
+                            _c20_script(tree, target, version, "omitted", name, reach[name], ""), size))
+
+            # ---- C: shown conditions
+            for i, c in enumerate(conds):
+                if i not in bad_cond:
+                    if type(c["shown"]) is tuple or c["shown"] is not kconf.y:
+                        acc.nt("c20:cond:%s:%s:%s:%s" % (tid, target, c["sym"].name, c["what"]))
+                    continue
+                stripped = D._remove_deps_from_expr(c["orig"], c["guard"], kconf.y) if c["guard"] is not None else c["orig"]
+                cause = diag.diagnose(stripped) or "unexplained"
+                cc = "c20:shown-condition:%s" % cause
+                out.append((cc, "a condition shown in the docs has, in every reachable configuration, the truth value of the Kconfig condition it was simplified from",
+                            "%s: %s of %s: Kconfig condition `%s` is shown as `%s`; they differ with %r; cause: %s"
+                            % (where, c["kind"], c["sym"].name, K.expr_str(c["orig"]), K.expr_str(c["shown"]), bad_cond[i], cause),
+                            _c20_script(tree, target, version, "cond", c["sym"].name, bad_cond[i], c["what"]), size))
+            for j, (c, t, ex) in enumerate(text_conds):
+                if j not in bad_text:
+                    continue
+                i = conds.index(c)
+                if i in bad_cond:
+                    continue      # already reported at the function level
+                how, wit = bad_text[j]
+                cc = "c20:shown-text:can-be-set-when:%s" % how
+                out.append((cc, "the rendered `Symbol can be set when` text, read back as a Kconfig expression, has the truth value of the prompt condition",
+                            "%s: %s: text %r (read as %r) vs Kconfig condition `%s`: %s %r" % (where, c["sym"].name, t, ex, K.expr_str(c["orig"]), how, wit),
+                            _c20_script(tree, target, version, "cond-text", c["sym"].name, wit if how == "differs" else [], c["what"]), size))
+    finally:
+        if workdir is None:
+            shutil.rmtree(d, ignore_errors=True)
+    return out
+
+
+_C20_STATE = {"tier": "quick", "seed": 0}
+
+
+def c20_label(tid):
+    if tid[0] == "h":
+        return tid[1]
+    return _c20_expressions_memo(_C20_STATE["tier"], _C20_STATE["seed"])[tid[1]][0]
+
+
+_C20_EXPR_MEMO = {}
+
+
+def _c20_expressions_memo(tier, seed):
+    if (tier, seed) not in _C20_EXPR_MEMO:
+        _C20_EXPR_MEMO[(tier, seed)] = c20_expressions(tier, seed)
+    return _C20_EXPR_MEMO[(tier, seed)]
+
+
+def _c20_worker(chunk):
+    _quiet()
+    acc = _Acc()
+    workdir = tempfile.mkdtemp(prefix="rtc20_")       # one scratch directory per chunk (the Kconfig file is overwritten per case)
+    try:
+        for tid, target, version in chunk:
+            try:
+                for stale in ("sdkconfig.rename", "out.rst"):
+                    if os.path.exists(os.path.join(workdir, stale)):
+                        os.remove(os.path.join(workdir, stale))
+                tree = c20_tree(tid, _C20_STATE["tier"], _C20_STATE["seed"])
+                for v in c20_case(acc, tid, tree, target, version, workdir=workdir):
+                    acc.violation(*v)
+                if len(acc.samples) < 1:
+                    acc.sample({"tree": c20_label(tid), "target": target, "parser": version})
+            except Exception:  # noqa: BLE001
+                acc.stat("checker_error")
+                acc.stats.setdefault("checker_error_text", "%r %s %d\n%s" % (tid, target, version, traceback.format_exc()[-1500:]))
+    finally:
+        shutil.rmtree(workdir, ignore_errors=True)
+    return acc.dump()
+
+
+def run_c20(tier, seed, jobs):
+    _C20_STATE.update(tier=tier, seed=seed)
+    exprs = c20_expressions(tier, seed)
+    work = []
+    for name in sorted(c20_hand_trees()):
+        for target in C20_TARGETS:
+            for version in (1, 2):
+                work.append((("h", name), target, version))
+    for i in range(len(exprs)):
+        for ti, target in enumerate(C20_TARGETS):
+            if tier == "quick" and target == "chipc" and i % 3:
+                continue        # chipc (no IDF_TARGET_* option is y) for every third expression only
+            versions = (1, 2) if tier != "quick" else ((1 + (i + ti) % 2),)
+            for version in versions:
+                work.append((("e", i), target, version))
+    acc = _Acc()
+    for d in _pool_map(_c20_worker, _chunks(work, max(1, jobs) * 4), jobs):
+        acc.merge(d)
+    n_rand = 60 if tier == "quick" else 1500
+    bound = ("%d expression trees + %d hand-written trees x targets %s (quick tier: chipc for every third expression) x parser %s.  Expression trees: a preamble (IDF_TARGET from the environment, "
+             "IDF_TARGET_CHIPA/B), the definitions of the operands and ONE expression used as: depends on of an option / prompt condition / enclosing if / "
+             "menu depends on / menu visible if / choice depends on / range and default condition / select condition / menuconfig depends on.  "
+             "Expressions: every bool operand kind (user option with and without default, IDF_TARGET_*, promptless constant y / n, promptless with "
+             "target default, promptless with user-dependent default, promptless selected by a user option / by a target-constant option, promptless "
+             "implied by a user option, target-gated prompt with imply, option depending on the target, prompt gated by the target, member of a user "
+             "choice / of a target-gated choice, undefined symbol) as A, !A, A = y/n, A != y/n and combined with 5 second operands by && || = !=; int "
+             "operands (user, promptless constant, target default, target of set / of set default) against literals and each other with = != < >=; "
+             "string operands (IDF_TARGET, user string, promptless) against quoted literals, an unquoted undefined symbol and each other; %d "
+             "seed-dependent compound expressions of depth 2.  Hand trees: option defined twice with the first definition in a target-hidden menu; "
+             "choice without prompt and choice in a target-hidden menu whose members are referenced from range / default / depends on / select; nested "
+             "menus, menuconfig, implicit sub-menus, prompt gated by the target, sdkconfig.rename with renames to documented / hidden / promptless "
+             "options, a choice and a choice member; two definitions at top level; select / set from hidden and target-constant sources.  "
+             "Configurations: ALL assignments (unset / n / y; choices: unset / each member; int and string: unset / listed literals) to the user-settable "
+             "options other than the pure sinks of the template (max %d per case)"
+             % (len(exprs), len(c20_hand_trees()), list(C20_TARGETS), "1 and 2 (alternating per expression in the quick tier)", n_rand, _C20Configs.LIMIT))
+    rule = "all expressions and hand trees are fixed; the seed selects the %d compound expressions" % n_rand
+    contracts = [
+        "kconfgen.core.write_docs(kconfig, file) [ConfigTargetVisibility + gen_kconfig_doc.write_docs + deprecated section]: every option / named choice "
+        "with a prompt whose Symbol.visibility / Choice.visibility is > 0 in some reachable configuration has `.. _CONFIG_<name>:` in the text and "
+        "ConfigTargetVisibility.visible(node) is True for one of its prompted nodes (choice members: for their choice)",
+        "gen_kconfig_doc._prepare_cond as called by write_menu_item (prompt condition; rows kept by _filter_possibly_applicable_rows for Range / Default "
+        "value with the direct dependency stripped; selected-by / set-by rows of sources kept by _source_sym_may_force): a condition that is shown has in "
+        "every reachable configuration (in which the stripped direct dependency holds) the truth value (expr_value) of the original condition",
+        "the `Symbol can be set when` text of an entry, read back as a Kconfig expression and evaluated with Kconfig.eval_string, has in every reachable "
+        "configuration the truth value of the prompt condition of that node",
+        "every :ref:`label` / :ref:`text<label>` in the text written by kconfgen.core.write_docs has `.. _label:` in the same text",
+        "kconfgen.core.write_docs does not raise",
     ]
     return acc, bound, rule, contracts
 
